@@ -171,6 +171,16 @@ fn main() {
                 "cov" => cov::drive(seed, n),
                 "curve-float" | "curve-big" | "stroke-float" => drivers::curve_float(fam, seed, n),
                 "dashops" => drivers::dashops(seed, n),
+                "dash-nonpos" => {
+                    // dashed strokes whose dash array has a total that is not positive: nothing may be painted
+                    let ds = [json!([0]), json!([0, 0]), json!([3, -3]), json!([-2, 1]), json!([0, 0, 0]), json!([-4]), json!([1, -1, 2, -2])];
+                    let mut v = drivers::stroke("dash", seed, n);
+                    for (i, sc) in v.iter_mut().enumerate() {
+                        sc["style"]["dash"] = ds[i % ds.len()].clone();
+                        sc["id"] = json!(format!("drv-dash-nonpos-{}-{}", seed, i));
+                    }
+                    v
+                }
                 "stroke-nonpos" => {
                     // the stroke / dash scenarios with a width that must paint nothing
                     let ws = [json!(0), json!("-0"), json!(-1), json!(-7), json!("NaN"), json!("-Inf"), json!([-1, 3])];
